@@ -158,11 +158,18 @@ bool prop_C05(Tape& t, Report& rep)
             root.kind = "sparse";
             sparse = true;
         }
+        else if (t.chance(1, 30))
+        {
+            // a position at the end of a very long legal game (the search tree crosses the 800th ply)
+            root = gen::long_game(t, &rep, 780, 799);
+            root.kind = "long_game";
+            rep.cls("c05:root_after_780_to_799_plies");
+        }
         else
             root = root_with_moves(t, rep, 60);
         std::vector<ref::Move> legal = ref::legal_moves(root.cur);
         if (legal.empty()) continue;
-        Position pos = br::from_fen(root.cur);
+        Position pos = root.kind == "long_game" ? br::replay(root) : br::from_fen(root.cur);
         Limits lim;
         sl::Plan plan;
         plan.cap = CAP;
@@ -206,10 +213,18 @@ bool prop_C05(Tape& t, Report& rep)
         if (!sparse && t.chance(1, 3))
         {
             int np = 1 + int(t.choose(12));
+            // both faults together: a poisoned ROOT entry and a stop before the first iteration completes
+            const bool coupled = t.chance(1, 2);
+            if (coupled)
+            {
+                plan.stop_at = t.chance(1, 3) ? 1 : 1 + t.choose(30);
+                if (faults.find("stop@") == std::string::npos) faults += " stop@" + std::to_string(plan.stop_at);
+                rep.cls("c05:poisoned_root_and_early_stop");
+            }
             for (int i = 0; i < np; ++i)
             {
                 ref::Pos target = root.cur;
-                int hops = int(t.choose(3));
+                int hops = (coupled && i == 0) ? 0 : int(t.choose(3));
                 for (int h = 0; h < hops; ++h)
                 {
                     std::vector<ref::Move> ms = ref::legal_moves(target);
@@ -365,7 +380,8 @@ ref::Pos mate_in_one_root(Tape& t, Report& rep, bool& found)
                 if (p.b[s] == '.' && std::max(std::abs(ref::FL(s) - ref::FL(wk)), std::abs(ref::RK(s) - ref::RK(wk))) <= 3) cs[cn++] = s;
             int s = (cn && !t.chance(1, 4)) ? cs[t.choose(cn)] : gen::free_square(t, p, false);
             if (s < 0) continue;
-            char c = "qrqrbn"[t.choose(6)];
+            char c = "qrqrbnpp"[t.choose(8)];
+            if (c == 'p' && (ref::RK(s) == 0 || ref::RK(s) == 7)) c = 'n';
             p.b[s] = w ? char(std::toupper(c)) : c;
         }
         int nd = int(t.choose(4));
@@ -586,10 +602,28 @@ bool prop_C08(Tape& t, Report& rep)
             root = gen::fen_pos(gen::CATALOG[t.choose(gen::CATALOG_N)]);
             kind = "catalogue";
         }
-        else
+        else if (t.flag())
         {
             root = prevRoot;
             kind = "same_root_again";
+        }
+        else
+        {
+            // the normal game flow: the position one or two plies further on the SAME table (entries written for this
+            // position at another distance from the root are now read)
+            root = prevRoot;
+            int plies = 1 + int(t.choose(2));
+            for (int k = 0; k < plies; ++k)
+            {
+                std::vector<ref::Move> lm = ref::legal_moves(root);
+                if (lm.empty()) break;
+                // prefer the continuation a search would expect: checks and captures first
+                std::stable_sort(lm.begin(), lm.end(), [&](const ref::Move& a, const ref::Move& b) {
+                    return int(ref::gives_check(root, a)) * 2 + int(ref::is_capture(root, a)) > int(ref::gives_check(root, b)) * 2 + int(ref::is_capture(root, b));
+                });
+                root = ref::make(root, t.chance(1, 2) ? lm[0] : lm[t.choose(uint32_t(lm.size()))]);
+            }
+            kind = "successor_on_warm_table";
         }
         if (ref::legal_moves(root).empty()) continue;
         prevRoot = root;
